@@ -388,7 +388,7 @@ def process(model):
         invs.append(rec)
     out["invariants"] = invs
 
-    # ---- verification functions whose body is a single ``return <expression>``
+    # ---- verification functions whose body consists of assignments to names and returns
     fn_args = model.get("fn_args") or {}
     funcs = []
     for pf in parsed.verification_functions:
@@ -397,26 +397,39 @@ def process(model):
         if not pf.name.startswith(model.get("fn_prefix", "vf_")):
             continue
         rec = {"name": pf.name}
-        body = list(pf.body)
-        if len(body) != 1 or not isinstance(body[0], pt.Return) or body[0].value is None:
-            rec["tree_error"] = "body is not a single return"
-            funcs.append(rec)
-            continue
-        value = body[0].value
+
+        def statements(body_nodes):
+            """-> (json statements, expression nodes) or raises ValueError"""
+            js, exprs = [], []
+            for node in body_nodes:
+                if isinstance(node, pt.Return) and node.value is not None:
+                    js.append({"k": "return", "e": dump_tree(node.value)})
+                    exprs.append(node.value)
+                elif isinstance(node, pt.Assignment) and isinstance(node.target, pt.Name):
+                    js.append({"k": "assign", "x": node.target.identifier,
+                               "e": dump_tree(node.value)})
+                    exprs.append(node.value)
+                else:
+                    raise ValueError(f"unmodelled statement {type(node).__name__}")
+            return js, exprs
+
         try:
-            rec["tree"] = dump_tree(value)
+            rec["body"], _ = statements(pf.body)
         except ValueError as e:
             rec["tree_error"] = str(e)
+            funcs.append(rec)
+            continue
         if st is not None:
             vf = st.verification_functions_by_name.get(pf.name)
             if isinstance(vf, intermediate.TranspilableVerification):
-                value = vf.parsed.body[0].value
+                _, exprs = statements(vf.parsed.body)
                 canonicalizer = ti._Canonicalizer()
                 try:
                     for node in vf.parsed.body:
                         canonicalizer.transform(node)
                     nodes = []
-                    walk(value, nodes)
+                    for e in exprs:
+                        walk(e, nodes)
                     rec["canon"] = [canonicalizer.representation_map[n] for n in nodes]
                 except Exception as e:  # noqa
                     rec["canon_exc"] = type(e).__name__
@@ -432,7 +445,8 @@ def process(model):
                     else:
                         rec["verdict"] = "ok"
                         nodes = []
-                        walk(value, nodes)
+                        for e in exprs:
+                            walk(e, nodes)
                         rec["types"] = [dump_type(inference.type_map[n], inference.type_map, n)
                                         for n in nodes]
             else:
